@@ -1,4 +1,4 @@
-//go:build verifsim_futex
+//go:build verifsim_futex && !verifsim_spin
 
 package simrt
 
